@@ -361,6 +361,26 @@ class Run:
 
     # ---- one job ---------------------------------------------------------
     def run_job(self, job):
+        """One job; a non-canary job that TIMES OUT is retried once with --stop-on-fail (and without the VREACH twin):
+        CBMC's all-properties mode re-solves after the first failing property, and that second round can take far
+        longer than finding the failure did.  The retry can only turn 'undecided' into 'failed' (with a trace); a
+        retry that finds nothing leaves the job undecided."""
+        res = self._run_job_once(job)
+        if (res["status"] == "undecided" and res["reason"].startswith("cbmc timeout") and job.get("kind", "obligation") != "canary"
+                and "--stop-on-fail" not in job.get("cbmc", [])):
+            job2 = dict(job, defs=list(job.get("defs", [])) + ["-DV_NO_VREACH"], cbmc=list(job.get("cbmc", [])) + ["--stop-on-fail"],
+                        noreach=True, timeout=min(job.get("timeout", 300), 900))
+            res2 = self._run_job_once(job2)
+            if res2["status"] == "failed":
+                res2["cmds"] = res["cmds"] + res2["cmds"]
+                res2["wall_s"] = round(res.get("wall_s", 0) + res2.get("wall_s", 0), 2)
+                return res2
+            res["cmds"] += res2["cmds"]
+            res["reason"] += "; retry with --stop-on-fail: " + (res2["reason"] or res2["status"])
+            res["wall_s"] = round(res.get("wall_s", 0) + res2.get("wall_s", 0), 2)
+        return res
+
+    def _run_job_once(self, job):
         t0 = time.time()
         res = {"job": job["name"], "kind": job.get("kind", "obligation"), "cls": job.get("cls", "P"),
                "status": "undecided", "reason": "", "props": [], "failed": [], "cmds": [],
@@ -426,6 +446,9 @@ class Run:
                 msgs.append(e["messageText"])
             if "result" in e:
                 props = e["result"]
+            elif props is None and e.get("status") == "failed" and "property" in e and "--stop-on-fail" in cmd:
+                # --stop-on-fail (canary jobs): the first failing property and its trace, no result table
+                props = [dict(e, status="FAILURE")]
         alltext = "\n".join(msgs)
         res["nobody"] = sorted(set(re.findall(r"no body for (?:callee|function) (\S+)", alltext)))
         if job.get("strict_nobody"):
